@@ -60,7 +60,7 @@ fn source_check(bytes: &[u8], at: usize) -> Option<Violation> {
 }
 
 pub fn run(ctx: &Ctx) -> i32 {
-    let nfiles = ctx.tier.pick(200u64, 4_000u64);
+    let nfiles = ctx.tier.pick(600u64, 6_000u64);
     let kinds_per_offset = ctx.tier.pick(2usize, 8usize);
     let opts = ObsOpts::no_images();
     let mut sum = run_cases(ctx, nfiles, |i| {
